@@ -57,6 +57,23 @@ def execute(c):
             tol = c["tol"][0] / c["tol"][1]
             r = M.snap_scale(s, tol)
             ev["o"] = {"changed": bool(r != s), "target": _lat(1 / r if c["small"] else r, 1024), "idem": bool(M.snap_scale(r, tol) == r)}
+        elif op == "snapfine":
+            frac = lambda e: 0.0 if e == 0 else c["sg"] * 2.0 ** -e  # noqa: E731
+            n = c["n"]
+            sv = n + frac(c["es"])
+            if c["f"] in ("scale", "scale_inv"):
+                s = 1 / sv if c["f"] == "scale_inv" else sv
+                r = M.snap_scale(s) if c["spell"] == "default" else M.snap_scale(s, 1e-6)
+                back = 1 / r if c["f"] == "scale_inv" else r
+                ev["o"] = {"scale_is_n": bool(r == (1 / n if c["f"] == "scale_inv" else n)) or bool(back == n), "scale_unchanged": bool(r == s), "trans_is_5": True,
+                           "trans_unchanged": True, "rot_zero": True, "all_unchanged": bool(r == s), "idem": bool(M.snap_scale(r) == r)}
+            else:
+                tv, wv = 5 + frac(c["et"]), (0.0 if c["ew"] == 0 else 2.0 ** -c["ew"])
+                A = Affine(sv, wv, tv, -wv, sv, tv)
+                B = M.snap_affine(A) if c["spell"] == "default" else M.snap_affine(A, ttol=1e-3, stol=1e-6, tol=1e-8)
+                ev["o"] = {"scale_is_n": bool(B.a == n and B.e == n), "scale_unchanged": bool(B.a == sv and B.e == sv), "trans_is_5": bool(B.c == 5 and B.f == 5),
+                           "trans_unchanged": bool(B.c == tv and B.f == tv), "rot_zero": bool(B.b == 0 and B.d == 0), "all_unchanged": bool(B == A),
+                           "idem": bool(M.snap_affine(B) == B)}
         elif op == "align":
             x = c["x"]
             ev["o"] = {"dn": [int(M.align_down(x, a)) for a in range(1, 18)], "up": [int(M.align_up(x, a)) for a in range(1, 18)],
